@@ -10,6 +10,38 @@ from .ctx import Ctx
 from .report import Report
 
 
+def run_check(prop, tier='quick', overrides=None, quiet=False, replay=None, write=True):
+    """run one property check; returns (exit code, Report)"""
+    R = Report(prop, tier, quiet=quiet)
+    R.write = write
+    try:
+        try:
+            mod = importlib.import_module('sa.props.' + prop)
+        except ModuleNotFoundError:
+            print('ANALYSIS-ERROR property=%s no check registered for this property' % prop)
+            return 2, R
+        if replay:
+            with open(replay) as f:
+                o = json.load(f)['obligation']
+            R.only = (o['rule'], o['construct'], str(o['token']))
+            print('replaying obligation rule=%s construct=%s token=%s' % R.only)
+        ctx = Ctx(Model(overrides=overrides), K=2 if tier == 'quick' else 3, depth=3 if tier == 'quick' else 4, tier=tier)
+        R.count('modules', ctx.model.stats['modules'])
+        R.count('classes', ctx.model.stats['classes'])
+        R.count('functions_in_package', ctx.model.stats['functions'])
+        mod.run(ctx, R)
+        if ctx.sliced:
+            R.note('rule-relevant slicing used for: ' + ', '.join(sorted(ctx.sliced)))
+        if tier == 'thorough' and hasattr(mod, 'thorough') and overrides is None:
+            mod.thorough(ctx, R)
+    except AnalysisError as e:
+        R.error(str(e))
+    except Exception as e:      # a traceback must never look like a verdict
+        tb = traceback.format_exc().strip().splitlines()
+        R.error('internal error: %s: %s | %s' % (type(e).__name__, e, ' / '.join(tb[-6:])))
+    return R.finish(), R
+
+
 def main(argv):
     if not argv:
         print('usage: check <Cxx> [--tier quick|thorough] [--replay file]')
@@ -30,33 +62,8 @@ def main(argv):
             return 2
     if tier not in ('quick', 'thorough'):
         tier = 'quick'
-    R = Report(prop, tier)
-    try:
-        try:
-            mod = importlib.import_module('sa.props.' + prop)
-        except ModuleNotFoundError:
-            print('ANALYSIS-ERROR property=%s no check registered for this property' % prop)
-            return 2
-        if replay:
-            with open(replay) as f:
-                o = json.load(f)['obligation']
-            R.only = (o['rule'], o['construct'], str(o['token']))
-            print('replaying obligation rule=%s construct=%s token=%s' % R.only)
-        ctx = Ctx(Model(), K=2 if tier == 'quick' else 3, depth=3 if tier == 'quick' else 4, tier=tier)
-        R.count('modules', ctx.model.stats['modules'])
-        R.count('classes', ctx.model.stats['classes'])
-        R.count('functions_in_package', ctx.model.stats['functions'])
-        mod.run(ctx, R)
-        if ctx.sliced:
-            R.note('rule-relevant slicing used for: ' + ', '.join(sorted(ctx.sliced)))
-        if tier == 'thorough' and hasattr(mod, 'thorough'):
-            mod.thorough(ctx, R)
-    except AnalysisError as e:
-        R.error(str(e))
-    except Exception as e:      # a traceback must never look like a verdict
-        tb = traceback.format_exc().strip().splitlines()
-        R.error('internal error: %s: %s | %s' % (type(e).__name__, e, ' / '.join(tb[-6:])))
-    return R.finish()
+    code, _ = run_check(prop, tier, replay=replay)
+    return code
 
 
 if __name__ == '__main__':
